@@ -173,8 +173,20 @@ def run_harness(h, outdir, tier):
     gi = ['goto-instrument', '--dfcc', h.entry]
     if h.enforce:
         gi += ['--enforce-contract-rec' if h.recursive else '--enforce-contract', h.enforce]
+    present = None
+    if h.replace:
+        # DFCC refuses to replace a function that is not in the program (the code under test may no longer call it: then there is nothing to replace)
+        rc_s, out_s, _e, _t = sh(['goto-instrument', '--list-symbols', gb1], 120)
+        if rc_s == 0:
+            present = set(ln.split(' ', 1)[0] for ln in out_s.splitlines() if ln and not ln.startswith('contract::'))
+    skipped = []
     for r in h.replace:
+        if present is not None and r not in present:
+            skipped.append(r)
+            continue
         gi += ['--replace-call-with-contract', r]
+    if skipped:
+        res['replace_skipped_not_called'] = skipped
     if h.loop_contracts:
         gi += ['--apply-loop-contracts']
     if h.plain and h.gen_bodies:
